@@ -285,6 +285,19 @@ def run_stage(prop, tier, seed, stage, nshards_default):
             solo_dir = os.path.join(WORK, "logs", prop, name + f"-solo-{r['shard']}-{restarts}")
             solo_timeout = timeout_s if not r["timed_out"] else timeout_s * 4
             suspected_hang = r["timed_out"] or r["rc"] == 124
+            if suspected_hang and any(v["sig"] == "hang" for v in res["violations"]):
+                # a hang has already been confirmed alone in this stage: further trips of the
+                # in-process watchdog are recorded directly and the shard is resumed
+                res["violations"].append({"sig": "hang", "sub": sub, "idx": idx, "seed": seed, "variant": variant, "detail": {"what": "case exceeded the in-process watchdog (an earlier one was confirmed alone)", "rc": r["rc"]}})
+                restarts += 1
+                if restarts > 40:
+                    res["inconclusive"].append(f"{name}: shard {r['shard']} restarted {restarts} times; giving up on its remaining cases")
+                    break
+                cur_dir = os.path.join(WORK, "logs", prop, name + f"-resume-{r['shard']}-{restarts}")
+                r = run_shards(variant, prop, tier, seed, nshards, cur_dir, stage.get("args", []) + ["--resume-after", sub, str(idx)], timeout_s, env_extra, shard_ids=[r["shard"]], wrapper=stage.get("wrapper"))[0]
+                if r["json"] is not None:
+                    results.append(r)
+                continue
             if suspected_hang:
                 # a suspected hang is confirmed alone with a 10x larger per-case limit
                 env_extra = dict(env_extra, JBV_WATCHDOG_S=str(10 * int(env_extra.get("JBV_WATCHDOG_S", "60"))))
